@@ -151,6 +151,10 @@ func checkErrClasses(c *Ctx, ea *ErrAnalysis, rfs []*ssa.Function, rule string) 
 		case e.Cause == "nil":
 			continue
 		case strings.Contains(e.Tags, "NotSupported"):
+			if e.SiteFn != nil {
+				ofn = core.FuncName(e.SiteFn)
+				key = fmt.Sprintf("inbound#class[%s]", e.Site)
+			}
 			if why, ok := notSupportedAllowed[ofn]; ok {
 				R.OK(rule, key, e.Pos, ofn, "capability verdict: "+why)
 			} else {
